@@ -41,6 +41,11 @@ pub fn scenario(seed: u64, idx: u64) -> Scenario {
             secret_names.push(name);
         }
     }
+    // siblings whose name begins with the served directory's name (string-prefix containment checks)
+    let parent = if prefix.is_empty() { String::new() } else { format!("{}/", prefix) };
+    for (kind, name) in [("prefixsibling", "root-backup/secret.txt"), ("prefixsibling_index", "root-backup/index.html"), ("prefixsibling2", "root2/secret.txt"), ("prefixsibling_html", "rootx.html")] {
+        entries.push(Entry { path: format!("{}{}", parent, name), kind: EntryKind::File(Content::Gen { marker: format!("S3CR3T-{:08x}-p-{}\n", nonce, kind), len: 100, seed: 3, binary: false }) });
+    }
     // owner-placed link leaving the root: serving it is allowed
     entries.push(Entry { path: "linked-target.txt".into(), kind: EntryKind::File(Content::Gen { marker: format!("LINKED-{:08x}-\n", nonce), len: 80, seed: 1, binary: false }) });
     let ups = "../".repeat(depth);
@@ -64,14 +69,20 @@ pub fn scenario(seed: u64, idx: u64) -> Scenario {
                 6 => "%2e%2e".into(),
                 7 => rng.pick(&["%2E.", ".%2e", "..%2f", "....", "..;", "..%00", "%2e%2e%2f", "..\\"]).to_string(),
                 8 => format!("o{}", rng.range(1, 4)),
-                9 => "root".into(),
+                9 => rng.pick(&["root", "root-backup", "root2", "rootx"]).to_string(),
                 10 => rng.pick(&in_names).to_string(),
                 _ => rng.pick(&secret_names).clone(),
             });
         }
         // end on a file-ish name most of the time
         if rng.chance(3, 4) {
-            let last = if rng.chance(3, 4) { rng.pick(&secret_names).clone() } else { rng.pick(&in_names).to_string() };
+            let last = if rng.chance(1, 6) {
+                rng.pick(&["root-backup/secret.txt", "root-backup/", "root-backup", "root2/secret.txt", "rootx", "rootx.html"]).to_string()
+            } else if rng.chance(3, 4) {
+                rng.pick(&secret_names).clone()
+            } else {
+                rng.pick(&in_names).to_string()
+            };
             let last = if rng.chance(1, 4) { last.trim_end_matches(".html").trim_end_matches("/index").to_string() } else { last };
             segs.push(last);
         }
